@@ -8,7 +8,7 @@ import time
 from . import core, repo
 
 VERIF = os.path.dirname(os.path.dirname(os.path.abspath(__file__)))
-EVIDENCE_DIR = os.path.join(VERIF, "evidence")
+EVIDENCE_DIR = os.environ.get("VERIF_EVIDENCE_DIR") or os.path.join(VERIF, "evidence")
 REPLAY_DIR = os.path.join(EVIDENCE_DIR, "replays")
 KNOWN = os.path.join(VERIF, "known_findings.json")
 
@@ -49,7 +49,7 @@ def load_checks():
 
 # ------------------------------------------------------------------ worker
 def _job_opts(params):
-    opts = dict(max_paths=200000, timeout_s=900, qtimeout_ms=20000)
+    opts = dict(max_paths=200000, timeout_s=900, qtimeout_ms=20000, max_violations=5)
     for k in list(opts):
         if "_" + k in params:
             opts[k] = params["_" + k]
